@@ -148,6 +148,17 @@ NEEDS = {
  "C12-l1": ("Mul shortcut: when the left operand is one, `self` is returned instead of `rhs`", "an intermediate Newton iterate exactly equal to 1.000 while 1/x is 1-20% away: a handful of short operands (0.9867, 0.93450..0.93456 at p=3; 0.93456 at p=4) and solved-for long ones"),
  "C12-l2": ("early exit when the rounding of the iterate carried to 10^j", "an intermediate iterate rounding up to 10^j (985209..985214 at p=4, solved-for long operands)"),
  "C12-l3": ("operand order swapped in the Newton step + reference Mul returns self.normalized() when the left is one (two sites)", "an intermediate iterate exactly equal to one"),
+ "C04-m1": ("BigDecimalRef::clone_into skips the copy when the destination compares equal (== ignores scale)", "a value stored with clone_into over an equal value of another scale, then printed: trailing zeros dropped or invented"),
+ "C04-m2": ("num_traits::Signed::abs returns Zero::zero() for zero", "zero with non-zero scale through Signed::abs, then printed"),
+ "C04-m3": ("Neg for &BigDecimal returns BigDecimal::zero() for zero", "-&x for a zero with non-zero scale, then printed"),
+ "C12-m1": ("float one / &x shortcut returns x itself", "1.0 / &x with a float one and a borrowed denominator"),
+ "C12-m2": ("float one / x computes the reciprocal at the float's mantissa width", "1.0f64 / x by value with a reciprocal longer than 53 digits"),
+ "C14-m1": ("from_f64 whole-number fast path through a saturating cast", "exactly +2^63 through FromPrimitive::from_f64 only"),
+ "C14-m2": ("clone_into skips rebuilding when the magnitudes match and forgets the sign", "clone_into over a destination with the same digits and the opposite sign, then to_f64"),
+ "C14-m3": ("from_f32 rejects everything that is not Normal or Zero", "subnormal f32 through FromPrimitive::from_f32 only"),
+ "C17-m1": ("json_num_option swallows the parse error", "valid JSON number whose scale overflows i64, Option adapter"),
+ "C17-m2": ("visit_i128 64-bit fast path guarded by wrapping_abs", "an i128 token equal to exactly -2^127: arrives as 0"),
+ "C17-m3": ("parser strips leading '+' of the exponent, then accepts one more sign", "numeric strings like 1e+-5"),
 }
 OUT_OF_SCOPE = {"C04-j3"}
 def sh(cmd, **kw):
@@ -189,7 +200,7 @@ for name in sorted(os.listdir(os.path.join(HERE, "seeded"))):
     print(name, verdict, rule, "run", run, f"{dt:.0f}s", flush=True)
 if not only and not os.environ.get("RUN_SEEDED_DRY"):
     with open(os.path.join(HERE, "SENSITIVITY.md"), "w") as f:
-        f.write("# Sensitivity: seeded changes vs. checks\n\nEach change compiles, passes the 861-test suite, and breaks its property (demonstration in `seeded/<id>/demo.rs`, confirmation in `confirmation.txt`). Written by forty-eight sub-agents in eight rounds that saw only the property text (rounds 2-3: asked for subtle changes that random testing would most likely miss; round 4: changes confined to shared helper code outside the property's own files; round 5: changes that manifest only through the environment - a failing caller-supplied writer, a platform-dependent exp2 / powi result, a serde peer; rounds 6-7: told to assume very thorough checking - round 7 was given a description of the kinds of checks in place - and to find what would still slip through). Regenerate with `tools/run_seeded.py` (applies each patch to /repo, runs the quick check, reverts).\n\n| seeded change | property | quick check | rule that fired | first failing run | what it needs |\n|---|---|---|---|---|---|\n")
+        f.write("# Sensitivity: seeded changes vs. checks\n\nEach change compiles, passes the 861-test suite, and breaks its property (demonstration in `seeded/<id>/demo.rs`, confirmation in `confirmation.txt`). Written by fifty-two sub-agents in nine rounds that saw only the property text (rounds 2-3: asked for subtle changes that random testing would most likely miss; round 4: changes confined to shared helper code outside the property's own files; round 5: changes that manifest only through the environment - a failing caller-supplied writer, a platform-dependent exp2 / powi result, a serde peer; rounds 6-7: told to assume very thorough checking - round 7 was given a description of the kinds of checks in place - and to find what would still slip through). Regenerate with `tools/run_seeded.py` (applies each patch to /repo, runs the quick check, reverts).\n\n| seeded change | property | quick check | rule that fired | first failing run | what it needs |\n|---|---|---|---|---|---|\n")
         for (name, prop, verdict, rule, run) in rows:
             f.write(f"| {name} | {prop} | {verdict} | {rule} | {run} | {NEEDS.get(name, ('',''))[1]} |\n")
         caught = sum(1 for r in rows if r[2] == "CAUGHT")
